@@ -5,20 +5,44 @@ survive an in-place edit, iterators sharing state, and any other action at a dis
 from core import mk, bits_of, canonical, L, R, randbits, Buffer, side_char, time_limit, Timeout
 
 
-def step(rnd, pool, shadow, log):
+def step(rnd, pool, shadow, log, held=None):
     """perform one random operation; returns None or a failure string"""
     names = list(pool)
     a = rnd.choice(names)
     op = rnd.choice(['slice', 'slice', 'empty-slice', 'add', 'add', 'iadd', 'setint', 'setitem', 'setitem-empty', 'pad-inplace', 'pad-copy', 'shift-inplace', 'shift-copy',
                      'copy', 'hash-lookup', 'eq', 'foreign-operand', 'iter-zip', 'iter-nested', 'value', 'bitwise', 'invert', 'chunks', 'new', 'observe-mutate-observe', 'observe-mutate-observe'])
+    if held is not None:
+        # the buffers of this program were built from bytearrays the caller keeps (and rewrites): nothing that hashes (a Buffer over a
+        # bytearray is not hashable on the unchanged tree either), and the caller's own step
+        while op in ('hash-lookup', 'observe-mutate-observe', 'foreign-operand'):
+            op = rnd.choice(['caller-rewrites-array', 'caller-rewrites-array', 'copy', 'shift-copy', 'shift-inplace', 'pad-copy', 'slice', 'add'])
     A, sa = pool[a], shadow[a]
     n = len(sa)
     new = 'v%d' % len(log)
     log.append((op, a))
     try:
-        if op == 'new':
-            bits = randbits(rnd, rnd.choice([0, 1, 3, 8, 9, 17, 260, 300]))
-            pool[new], shadow[new] = mk(bits, rnd.choice([L, R])), bits
+        if op == 'caller-rewrites-array':
+            for ba in held.values():
+                k_ = rnd.choice(['flip', 'extend', 'clear', 'zero'])
+                if k_ == 'flip':
+                    for i_ in range(len(ba)):
+                        ba[i_] ^= 0xff
+                elif k_ == 'extend':
+                    ba.extend(b'\xa5\x5a')
+                elif k_ == 'clear':
+                    del ba[:]
+                else:
+                    for i_ in range(len(ba)):
+                        ba[i_] = 0
+        elif op == 'new':
+            bits = randbits(rnd, rnd.choice([0, 1, 3, 8, 9, 16, 17, 24, 260, 300, 304]))
+            side_ = rnd.choice([L, R])
+            if held is not None:
+                m_ = mk(bits, side_)
+                held[new] = bytearray(m_.content)
+                pool[new], shadow[new] = Buffer(held[new], len(bits), side_), bits
+            else:
+                pool[new], shadow[new] = mk(bits, side_), bits
         elif op == 'slice':
             s = rnd.randint(0, n)
             e = rnd.randint(s, n + 2)
@@ -163,7 +187,7 @@ def step(rnd, pool, shadow, log):
         if bits_of(v) != shadow[k] or v.length != len(shadow[k]) or not canonical(v):
             return 'after %s on %s: buffer %s is %s:%d:%s, should denote %r' % (op, a, k, v.content.hex(), v.length, side_char(v.padding), shadow[k])
     # every live buffer (result of whatever sequence of operations) is usable as a key: it hashes like a fresh buffer with the same bits
-    if rnd.random() < 0.3:
+    if held is None and rnd.random() < 0.3:
         for k, v in pool.items():
             try:
                 ok = hash(v) == hash(mk(shadow[k], rnd.choice([L, R])))
@@ -174,15 +198,21 @@ def step(rnd, pool, shadow, log):
     return None
 
 
-def run_program(rnd, nsteps):
+def run_program(rnd, nsteps, arrays=False):
     pool, shadow, log = {}, {}, []
+    held = {} if arrays else None
     for i in range(3):
-        bits = randbits(rnd, rnd.choice([0, 2, 5, 8, 11, 16, 23]))
-        pool['b%d' % i], shadow['b%d' % i] = mk(bits, rnd.choice([L, R])), bits
+        bits = randbits(rnd, rnd.choice([0, 2, 5, 8, 11, 16, 23] if not arrays else [0, 8, 16, 16, 24, 5, 11]))
+        side_ = rnd.choice([L, R])
+        if arrays:
+            held['b%d' % i] = bytearray(mk(bits, side_).content)
+            pool['b%d' % i], shadow['b%d' % i] = Buffer(held['b%d' % i], len(bits), side_), bits
+        else:
+            pool['b%d' % i], shadow['b%d' % i] = mk(bits, side_), bits
     for _ in range(nsteps):
         try:
             with time_limit(20):
-                f = step(rnd, pool, shadow, log)
+                f = step(rnd, pool, shadow, log, held)
         except Timeout:
             f = '%s on %s did not return within 20 s' % log[-1]
         if f:
@@ -195,8 +225,9 @@ def run_program(rnd, nsteps):
 
 def run(rep, rnd, nprog, nsteps):
     for p in range(nprog):
-        f, log = run_program(rnd, nsteps)
-        rep.count('buffer-program', key=('prog', p, len(log)), n=len(log))
+        arrays = p % 5 == 4       # a fifth of the programs: buffers built from bytearrays that the caller keeps and rewrites
+        f, log = run_program(rnd, nsteps, arrays)
+        rep.count('buffer-program' + ('-over-bytearrays' if arrays else ''), key=('prog', p, len(log)), n=len(log))
         rep.oracle_evals += len(log)
         for op, _ in log:
             rep.hist['program-op:' + op] = rep.hist.get('program-op:' + op, 0) + 1
